@@ -464,6 +464,12 @@ pub fn check_cli(c: &CliCase) -> Option<(String, String)> {
                 if code != Some(0) {
                     return Some(("train-rejects".to_string(), format!("train exited with {code:?} ({}) although the library pipeline trains a model", stderr.lines().last().unwrap_or(""))));
                 }
+                if c.label.starts_with("large") {
+                    let n = spec.to_bytes().len();
+                    if n < 200_000 {
+                        machinery_error(&format!("the large corpus produced a model of only {n} bytes: not a large model"));
+                    }
+                }
                 let z = match std::fs::read(&model_path) {
                     Ok(z) => z,
                     Err(e) => return Some(("train-no-model".to_string(), format!("train exited 0 but wrote no model: {e}"))),
@@ -480,7 +486,11 @@ pub fn check_cli(c: &CliCase) -> Option<(String, String)> {
                     Ok((_, rest)) => return Some(("train-model-trailing".to_string(), format!("{} bytes follow the model in the written file", rest.len()))),
                     Err(e) => return Some(("train-model-unreadable".to_string(), format!("Model::read_slice rejects the written model: {e}"))),
                 };
-                if let Some(what) = approx_diff(&got, &spec, 3) {
+                // the large corpus runs liblinear for many more iterations: the last-bit differences between
+                // the two builds accumulate on a noisy corpus (65 steps of 15000 observed, solver stops at eps 0.01); what the
+                // case is there for is damage to a LARGE file, which is unreadable or grossly different
+                let tol = if c.label.starts_with("large") { 1024 } else { 3 };
+                if let Some(what) = approx_diff(&got, &spec, tol) {
                     return Some(("train-model-differs".to_string(), format!("the model written by train differs from the library pipeline's on the same files: {what}")));
                 }
                 None
@@ -515,6 +525,27 @@ pub fn cli_cases(tier: Tier) -> Vec<CliCase> {
     ];
     let sizes: Vec<(u8, u8, u8, u8, u8)> = tier.pick(vec![(3, 3, 3, 3, 4), (1, 2, 2, 1, 1)], vec![(3, 3, 3, 3, 4), (1, 2, 2, 1, 1), (0, 1, 2, 2, 2), (2, 3, 0, 0, 255)]);
     let mut out = vec![];
+    // one LARGE corpus (pseudo-random tokens over 40 characters): the written model is several hundred KiB,
+    // i.e. many internal blocks of the compressor and of any buffered writer
+    {
+        let alpha: Vec<char> = "abcdefghijklmnopqrstuvwxyzあいうえおかきくけこ亜伊宇".chars().collect();
+        let mut lines = vec![];
+        let mut x = 0x9e3779b97f4a7c15u64;
+        for _ in 0..tier.pick(1200, 4000) {
+            let mut toks = vec![];
+            for _ in 0..6 {
+                x = crate::gen::mix(x);
+                let len = 1 + (x % 4) as usize;
+                let mut t = String::new();
+                for k in 0..len {
+                    t.push(alpha[((x >> (8 * k + 8)) % alpha.len() as u64) as usize]);
+                }
+                toks.push(t);
+            }
+            lines.push(toks.join(" "));
+        }
+        out.push(CliCase { label: "large-corpus".into(), tok: vec![lines], part: vec![], dict: vec![], sizes: (3, 3, 3, 3, 4), solver: 2, no_norm: true, opts: None });
+    }
     for (name, (tok, part, dict)) in &data {
         for (si, &sz) in sizes.iter().enumerate() {
             for solver in [2u8, 0] {
